@@ -9,6 +9,8 @@ import (
 	"math"
 	"strings"
 
+	"colverif/vsched"
+
 	"github.com/kelindar/column"
 	"github.com/zeebo/xxh3"
 )
@@ -99,8 +101,12 @@ func nv(xs ...uint64) []Val {
 // Big64K is the largest documented string (65535 bytes).
 var Big64K = strings.Repeat("0123456789abcdef", 4096)[:65535]
 
-// ConcatMerge is the user merge function used for string columns.
-func ConcatMerge(v, d string) string { return v + d }
+// ConcatMerge is the user merge function used for string columns. User code may be
+// preempted anywhere: it yields to the scheduler (a no-op outside an exploration).
+func ConcatMerge(v, d string) string {
+	vsched.Yield()
+	return v + d
+}
 
 var collidingEnum [2]string
 
@@ -193,7 +199,9 @@ func init() {
 		Name: "record", Mergeable: true,
 		Make: func() column.Column {
 			return column.ForRecord(func() *Rec { return new(Rec) }, column.WithMerge(func(v, d *Rec) *Rec {
-				return &Rec{B: append(append([]byte{}, v.B...), d.B...)}
+				vb := append([]byte{}, v.B...)
+				vsched.Yield() // user merge code may be preempted between reading its two arguments
+				return &Rec{B: append(vb, d.B...)}
 			}))
 		},
 		Set:   func(r column.Row, col string, v Val) { r.SetRecord(col, &Rec{B: []byte(v.S)}) },
